@@ -71,6 +71,15 @@ static void mk(U256 *a, U256 *b, int k) {
     T256(cvtepu16_epi32, _mm256_cvtepu16_epi32(a128)) \
     T256(slli_epi64_256, _mm256_slli_epi64(a, 9)) \
     T256(srli_epi64_256, _mm256_srli_epi64(a, 33)) \
+    T256(sign_epi16_256, _mm256_sign_epi16(a, b)) \
+    T256(sign_epi16_256z, _mm256_sign_epi16(a, _mm256_and_si256(b, _mm256_set1_epi16(0x00f0)))) \
+    T256(permute2x128_20, _mm256_permute2x128_si256(a, b, 0x20)) \
+    T256(permute2x128_31, _mm256_permute2x128_si256(a, b, 0x31)) \
+    T256(permute2x128_11, _mm256_permute2x128_si256(a, a, 0x11)) \
+    T256(permute2x128_08, _mm256_permute2x128_si256(a, b, 0x08)) \
+    T256(max_epi16_256, _mm256_max_epi16(a, b)) \
+    T256(min_epi16_256, _mm256_min_epi16(a, b)) \
+    T256(cmpeq_epi16_256, _mm256_cmpeq_epi16(a, _mm256_and_si256(a, b))) \
     T256(cvtepu8_epi16, _mm256_cvtepu8_epi16(a128)) \
     T256(setr_m128i, _mm256_setr_m128i(a128, b128)) \
     T256(loadu_storeu, ld_st_256(a)) \
@@ -130,6 +139,15 @@ static void mk(U256 *a, U256 *b, int k) {
     T128(cvtepu16_epi32_128, _mm_cvtepu16_epi32(a128)) \
     T128(slli_epi64_128, _mm_slli_epi64(a128, 13)) \
     T128(srli_epi64_128, _mm_srli_epi64(a128, 21)) \
+    T128(movemask_epi8_128, _mm_cvtsi32_si128(_mm_movemask_epi8(a128))) \
+    T128(movemask_epi8_256, _mm_cvtsi32_si128(_mm256_movemask_epi8(a))) \
+    T128(sign_epi16_128, _mm_sign_epi16(a128, b128)) \
+    T128(max_epi16_128, _mm_max_epi16(a128, b128)) \
+    T128(min_epi16_128, _mm_min_epi16(a128, b128)) \
+    T128(subs_epu16_128, _mm_subs_epu16(a128, b128)) \
+    T128(minpos_epu16, _mm_minpos_epu16(a128)) \
+    T128(extract_epi16_0, _mm_cvtsi32_si128(_mm_extract_epi16(a128, 0))) \
+    T128(extract_epi16_5, _mm_cvtsi32_si128(_mm_extract_epi16(a128, 5))) \
     T128(extracti128_0, _mm256_extracti128_si256(a, 0)) \
     T128(extracti128_1, _mm256_extracti128_si256(a, 1)) \
     T128(castsi256_si128, _mm256_castsi256_si128(a)) \
